@@ -731,7 +731,94 @@ func (g *c11Gen) enumerate() int {
 		c11Req("incall", kv("incall", jo(kv("changed", ja(c11U(kv("sessionId", js(c11Rs)), kv("inCall", jb(false)))))))),
 		c11Req("incall", kv("incall", jo(kv("all", jb(true)), kv("incall", ji(2))))))
 	g.nobody()
+	g.elsewhere()
 	return len(g.cases) - n0
+}
+
+// Requests whose entries name sessions ELSEWHERE: the session of another room (its room session id
+// resolves), the session in no room (only a public id, which is no room session id), next to / instead
+// of the observer (in the addressed room when it exists) - in every combination, in "users", in
+// "changed", in both, with every kind of call state; then the other request types that name sessions
+// or users (disinvite, switchto, invite, update, delete).  What the session elsewhere receives is
+// observed like the observer's events; after every request the liveness probes run.
+func (g *c11Gen) elsewhere() {
+	ent := func(id string, extra ...vjm) *vj { return c11U(append([]vjm{kv("sessionId", js(id))}, extra...)...) }
+	type who struct {
+		name string
+		ids  []string
+	}
+	combos := []who{
+		{"T", []string{c11Rs}}, {"O", []string{c11Rs2}}, {"N", []string{c11Sid3}}, {"Opub", []string{c11Sid2}},
+		{"TO", []string{c11Rs, c11Rs2}}, {"OT", []string{c11Rs2, c11Rs}}, {"ON", []string{c11Rs2, c11Sid3}},
+		{"TON", []string{c11Rs, c11Rs2, c11Sid3}}, {"OO", []string{c11Rs2, c11Rs2}},
+	}
+	states := []c11Shape{{"7", ji(7)}, {"1", ji(1)}, {"0", ji(0)}, {"true", jb(true)}, {"false", jb(false)}, {"absent", nil}, {"str", js("1")}}
+	list := func(w who, st *vj, extra ...vjm) *vj {
+		var l []*vj
+		for _, id := range w.ids {
+			kvs := append([]vjm{}, extra...)
+			if st != nil {
+				kvs = append(kvs, kv("inCall", st))
+			}
+			l = append(l, ent(id, kvs...))
+		}
+		return ja(l...)
+	}
+	for _, w := range combos {
+		for _, st := range states {
+			for _, where := range []string{"users", "changed", "both"} {
+				var ms []vjm
+				if where != "users" {
+					ms = append(ms, kv("changed", list(w, st.v)))
+				}
+				if where != "changed" {
+					ms = append(ms, kv("users", list(w, st.v)))
+				}
+				doc := c11Req("incall", kv("incall", jo(append([]vjm{kv("incall", ji(7))}, ms...)...)))
+				class := "d5/elsewhere/incall/" + where + "/" + w.name + "/" + st.name
+				g.add(class, true, true, doc)
+				if where == "both" && (st.name == "7" || st.name == "0") {
+					g.add(class, false, true, doc)
+				}
+				if st.name == "7" || st.name == "absent" {
+					pdoc := c11Req("participants", kv("participants", jo(ms...)))
+					g.add("d5/elsewhere/participants/"+where+"/"+w.name+"/"+st.name, true, true, pdoc)
+				}
+			}
+		}
+		// permissions of a session elsewhere, changed through this room
+		g.both("d5/elsewhere/participants/perm/"+w.name, c11Req("participants", kv("participants",
+			jo(kv("changed", list(w, nil, kv("permissions", ja(js("publish-media"), js("control"))))), kv("users", list(w, ji(1)))))))
+	}
+	// the call state of the room in sequences: a session elsewhere never is in this room's call
+	all := func(fl int64) *vj { return c11Req("incall", kv("incall", jo(kv("all", jb(true)), kv("incall", ji(fl))))) }
+	chg := func(es ...*vj) *vj { return c11Req("incall", kv("incall", jo(kv("incall", ji(7)), kv("changed", ja(es...)), kv("users", ja(es...))))) }
+	in := func(id string, fl int64) *vj { return ent(id, kv("inCall", ji(fl))) }
+	g.add("d5/elsewhere/seq/other-joins-all-leave", true, true, chg(in(c11Rs2, 7)), all(0), all(1), all(0))
+	g.add("d5/elsewhere/seq/all-join-other-leaves", true, true, all(1), chg(in(c11Rs2, 0)), all(1), all(0))
+	g.add("d5/elsewhere/seq/both-join-other-leaves", true, true, chg(in(c11Rs, 7), in(c11Rs2, 7)), chg(in(c11Rs2, 0)), all(0), all(0))
+	g.add("d5/elsewhere/seq/member-leaves-other-joins", true, true, all(1), chg(in(c11Rs, 0), in(c11Rs2, 7)), all(0), all(1))
+	g.add("d5/elsewhere/seq/other-joins-member-joins", true, true, chg(in(c11Rs2, 1)), chg(in(c11Rs, 1)), all(1), all(0), all(0))
+	g.add("d5/elsewhere/seq/nobody-joins", true, true, chg(in(c11Sid3, 7), in(c11Sid2, 7)), all(0))
+	g.add("d5/elsewhere/seq/absent", false, true, chg(in(c11Rs2, 7)), chg(in(c11Rs, 7), in(c11Rs2, 7)), all(0))
+	// other request types that name sessions / users elsewhere
+	g.both("d5/elsewhere/disinvite/sessions-O", c11Req("disinvite", kv("disinvite", jo(kv("sessionids", ja(js(c11Rs2)))))))
+	g.both("d5/elsewhere/disinvite/sessions-O-pub", c11Req("disinvite", kv("disinvite", jo(kv("sessionids", ja(js(c11Sid2), js(c11Sid3)))))))
+	g.both("d5/elsewhere/disinvite/sessions-OT", c11Req("disinvite", kv("disinvite", jo(kv("sessionids", ja(js(c11Rs2), js(c11Rs)))))))
+	g.both("d5/elsewhere/disinvite/users-O", c11Req("disinvite", kv("disinvite", jo(kv("userids", ja(js(c11User2), js(c11User3))), kv("alluserids", ja(js(c11User), js(c11User2)))))))
+	g.both("d5/elsewhere/invite/users-O", c11Req("invite", kv("invite", jo(kv("userids", ja(js(c11User2))), kv("alluserids", ja(js(c11User), js(c11User2), js(c11User3)))))))
+	g.both("d5/elsewhere/invite/users-TO", c11Req("invite", kv("invite", jo(kv("userids", ja(js(c11User), js(c11User2), js(c11User2)))))))
+	g.both("d5/elsewhere/update/users-O", c11Req("update", kv("update", jo(kv("userids", ja(js(c11User2), js(c11User))), kv("properties", jo(kv("name", js("n"))))))))
+	g.both("d5/elsewhere/delete/users-O", c11Req("delete", kv("delete", jo(kv("userids", ja(js(c11User2)))))))
+	g.both("d5/elsewhere/message", c11Req("message", kv("message", c11Default("message"))))
+	for _, sh := range []c11Shape{
+		{"list-O", ja(js(c11Rs2))}, {"list-TO", ja(js(c11Rs), js(c11Rs2))}, {"list-pub", ja(js(c11Sid2), js(c11Sid3))},
+		{"map-O", jo(kv(c11Rs2, jo(kv("k", js("v")))))}, {"map-TO", jo(kv(c11Rs, ji(1)), kv(c11Rs2, ji(2)))}, {"map-pub", jo(kv(c11Sid2, ji(1)))},
+	} {
+		g.both("d5/elsewhere/switchto/"+sh.name, c11Req("switchto", kv("switchto", jo(kv("roomid", js("t")), kv("sessions", sh.v)))))
+	}
+	g.both("d5/elsewhere/switchto/internal-list", c11Req("switchto", kv("switchto", jo(kv("roomid", js("t")), kv("sessionslist", ja(js(c11Sid2), js(c11Sid3)))))))
+	g.both("d5/elsewhere/switchto/internal-map", c11Req("switchto", kv("switchto", jo(kv("roomid", js("t")), kv("sessionsmap", jo(kv(c11Sid2, jz()), kv(c11Sid3, ji(1))))))))
 }
 
 // user entries that reference no session: what fixupUserSessions drops (no
@@ -844,7 +931,7 @@ func c11RandomValue(r *vrng, depth int) *vj {
 	case n == 3:
 		return jf(int64(r.intn(40))-5, int64(r.intn(5))-2)
 	case n == 4:
-		return js(pick(r, []string{"", "x", c11Rs, c11User, c11Sid, "0", "nobody", "invite", "+49123"}))
+		return js(pick(r, []string{"", "x", c11Rs, c11User, c11Sid, "0", "nobody", "invite", "+49123", c11Rs2, c11User2, c11Sid2, c11Sid3}))
 	case n == 5 && depth > 0:
 		var l []*vj
 		for i := r.intn(3); i > 0; i-- {
@@ -862,7 +949,7 @@ func c11RandomValue(r *vrng, depth int) *vj {
 	case n == 8:
 		return ja(js(c11User))
 	case n == 9:
-		return ja(c11U(kv("sessionId", js(c11Rs)), kv("inCall", ji(int64(r.intn(3))))))
+		return ja(c11U(kv("sessionId", js(pick(r, []string{c11Rs, c11Rs, c11Rs2}))), kv("inCall", ji(int64(r.intn(3))))))
 	case n == 10:
 		return jo(kv(c11Rs, jo()))
 	}
@@ -924,6 +1011,8 @@ func (g *c11Gen) random(r *vrng) {
 				for k := r.intn(4); k > 0; k-- {
 					if r.chance(15) {
 						l = append(l, c11U(kv("sessionId", js(c11Rs)), kv("inCall", ji(int64(r.intn(3))))))
+					} else if r.chance(12) {
+						l = append(l, c11U(kv("sessionId", js(c11Rs2)), kv("inCall", ji(int64(r.intn(3))))))
 					} else {
 						l = append(l, pool[r.intn(len(pool))].v)
 					}
